@@ -89,7 +89,7 @@ MiscInit == [probe |-> [e \in EP |-> -1], thr |-> <<>>, cbs |-> <<>>, ackDue |->
              incn |-> <<>>, fwdMax |-> [e \in EP |-> -1],
              nack |-> [line |-> 0, to |-> -1, set |-> {}, hb |-> FALSE], teardown |-> FALSE, calls |-> <<>>, inj |-> <<>>, dead |-> [e \in EP |-> FALSE], abortRx |-> [e \in EP |-> FALSE], fuzzed |-> FALSE, abortSeen |-> [e \in EP |-> FALSE], shutAt |-> <<>>, shutRet |-> <<>>, closedInc |-> <<>>, wdl |-> <<>>, rdl |-> <<>>, reqs |-> <<>>, gen |-> <<>>, performed |-> {}, genAtRx |-> <<>>, rsGen |-> <<>>,
              pendReads |-> <<>>, hbCalls |-> <<>>, hbSeen |-> {}, txn |-> [e \in EP |-> 0], wfail |-> {}, rdBase |-> <<>>, rdOut |-> <<>>, bwOwed |-> {}, forged |-> FALSE,
-             shutTx |-> [e \in EP |-> -1], miss |-> [e \in EP |-> [s |-> <<>>, l |-> <<>>, ok |-> TRUE]], lossSig |-> [line |-> 0, to |-> -1, set |-> {}],
+             abortTx |-> [e \in EP |-> FALSE], shutTx |-> [e \in EP |-> -1], miss |-> [e \in EP |-> [s |-> <<>>, l |-> <<>>, ok |-> TRUE]], lossSig |-> [line |-> 0, to |-> -1, set |-> {}],
              t3h |-> [e \in EP |-> [t |-> -1, iv |-> 0, cum |-> -1, n |-> -1]]]
 
 InitVars ==
@@ -281,8 +281,9 @@ TxViol(p) ==
 TrTx ==
   /\ IsEv("tx")
   /\ pkt' = (E.pid :> [ep |-> E.ep, ck |-> E.ck, forged |-> FALSE, genuine |-> TRUE, t |-> E.t, kinds |-> E.kinds, chunks |-> <<>>, class |-> "", malformed |-> FALSE]) @@ pkt
-  /\ viol' = viol \cup TxViol(E)
-  /\ misc' = [misc EXCEPT !.txn[E.ep] = @ + 1,
+  \* C09: the ABORT is the last thing an endpoint puts on the wire ("nothing more is written to the connection")
+  /\ viol' = viol \cup TxViol(E) \cup (IF misc.abortTx[E.ep] THEN {V("C09_NothingAfterAbort", <<E.ep, E.pid, E.kinds>>)} ELSE {})
+  /\ misc' = [misc EXCEPT !.txn[E.ep] = @ + 1, !.abortTx[E.ep] = @ \/ HasKind(E, {"abort"}),
                            !.abortSeen[E.ep] = @ \/ HasKind(E, {"abort"}),
                            !.teardown = @ \/ HasKind(E, {"abort"})]
   /\ l' = l + 1
